@@ -207,6 +207,12 @@ fn redirect() -> BoxedStrategy<String> {
             "< <(t 3 0)", "> >(cat)", "2> >(cat)",
         ])
         .prop_map(String::from),
+        // every operator with an explicit descriptor number in front
+        4 => (
+            proptest::sample::select(vec!["0", "1", "2", "3", "9", "12"]),
+            proptest::sample::select(vec![">f", ">>f", "<f", "<>f", ">|f", "<<<w", "<<<\"$x y\"", "<<< $x", ">&2", "<&0", ">&-", "<&-", ">&$x", "< <(t 3 0)", "> >(cat)"]),
+        )
+            .prop_map(|(fd, op)| format!("{fd}{op}")),
     ]
     .boxed()
 }
@@ -217,7 +223,7 @@ fn redirs(max: usize) -> BoxedStrategy<String> {
 
 fn heredoc() -> BoxedStrategy<String> {
     (
-        proptest::sample::select(vec!["<<", "<<-"]),
+        proptest::sample::select(vec!["<<", "<<-", "<<", "3<<", "0<<-"]),
         proptest::sample::select(vec!["EOF", "'EOF'", "\"EOF\"", "\\EOF", "E"]),
         proptest::collection::vec(proptest::sample::select(vec!["line $x", "\tindented", "$(echo c)", "back\\slash", "\"quoted\"", "", "EOFx", " EOF", "$((1+1))", "`echo d`"]), 0..=3),
     )
